@@ -338,6 +338,86 @@ def check_bitmap_font(ctx, res, case, out):
         res.add_cex(f"{len(images)} bitmaps for {n_col} colour glyphs", {"case": case}, {"site": "bitmap-count", "case": case["id"]})
 
 
+def cli_bitmap_build(job):
+    """a bitmap font built by the REAL command line (ninja -> resvg -> pngquant/zopflipng -> write_font), the resolution given by flag, by file or both"""
+    import io as _io
+    from fontTools import ttLib
+    from harness import cli
+    from harness.props import C20
+
+    fmt, how, res_px, metrics = job
+    d = common.scratch_dir("c14cli")
+    try:
+        svgs = {f"emoji_u{0x1F600 + i:x}.svg": cli.simple_svg(i, vb=100) for i in range(2)}
+        srcs = cli.write_svgs(d / "src", svgs)
+        opts = dict(metrics, color_format=fmt, output_file="Font.ttf")
+        flag_opts, file_opts = {}, dict(opts)
+        if how in ("file", "both"):
+            file_opts["bitmap_resolution"] = res_px if how == "file" else 40
+        if how in ("flag", "both"):
+            flag_opts["bitmap_resolution"] = res_px
+        (d / "c.toml").write_text(C20.toml_text(file_opts, [str(p_.relative_to(d)) for p_ in srcs]))
+        rc, out = cli.nanoemoji(["--build_dir", d / "build", *C20.flag_args(flag_opts), d / "c.toml"], d)
+        fonts = list((d / "build").glob("Font.*tf"))
+        if rc != 0 or not fonts:
+            return {"job": job, "rc": rc, "tail": out[-400:]}
+        return {"job": job, "rc": 0, "bytes": fonts[0].read_bytes()}
+    finally:
+        import shutil
+        shutil.rmtree(d, ignore_errors=True)
+
+
+def suite_cli(ctx, res, n):
+    """C14 on the real pipeline: the PNGs are rendered by one step and placed by another; both must work from the SAME resolution"""
+    import io as _io
+    from concurrent.futures import ThreadPoolExecutor
+    from fontTools import ttLib
+    from nanoemoji import config as nconfig
+    from PIL import Image
+
+    jobs = []
+    for k in range(n):
+        fmt = ["cbdt", "sbix"][k % 2]
+        how = ["file", "flag", "both", "default"][k % 4] if k >= 2 else "file"
+        res_px = ctx.rng.choice([64, 32, 96, 48]) if how != "default" else 128
+        metrics = ctx.rng.choice([{"upem": 1024, "ascender": 950, "descender": -250, "width": 1275}, {"upem": 1000, "ascender": 800, "descender": -200, "width": 1000},
+                                  {"upem": 2048, "ascender": 1900, "descender": -500, "width": 2400}])
+        jobs.append((fmt, how, res_px, metrics))
+    with ThreadPoolExecutor(max_workers=8) as ex:
+        results = list(ex.map(cli_bitmap_build, jobs))
+    for r in results:
+        fmt, how, res_px, metrics = r["job"]
+        cid = f"cli:{fmt}:{how}:{res_px}:{metrics['upem']}"
+        res.count(key=("cli", cid), nontrivial=how != "default")
+        if r["rc"] != 0:
+            res.add_cex("a bitmap build through the command line failed", {"job": list(r["job"]), "tail": r.get("tail")}, {"site": "c14-cli-build", "case": cid})
+            continue
+        res.stat("cli:ok:" + fmt + ":" + how)
+        font = ttLib.TTFont(_io.BytesIO(r["bytes"]), lazy=False)
+        cps = [[0x1F600 + i] for i in range(2)]
+        images = []
+        if fmt == "cbdt":
+            for strike, data in zip(font["CBLC"].strikes, font["CBDT"].strikeData):
+                for st in strike.indexSubTables:
+                    for nm in st.names:
+                        images.append(bytes(data[nm].imageData))
+        else:
+            for strike in font["sbix"].strikes.values():
+                images += [bytes(g.imageData) for g in strike.glyphs.values() if g.imageData]
+        sizes = [Image.open(_io.BytesIO(b)).size for b in images]
+        if any(h != res_px for (_, h) in sizes):
+            res.add_cex(f"bitmaps rendered {sorted(set(h for _, h in sizes))} px tall for bitmap_resolution = {res_px} given by {how}",
+                        {"job": list(r["job"]), "sizes": sizes}, {"site": "c14-cli-resolution", "case": cid})
+            continue
+        cfg = nconfig.FontConfig(color_format=fmt, bitmap_resolution=res_px, **metrics)
+        # order the images as the code points shape
+        from harness import shaper as _sh
+        order = font.getGlyphOrder()
+        case = {"id": cid, "fmt": fmt, "sizes": sizes, "config": dict(metrics, bitmap_resolution=res_px)}
+        out = {"font": font, "config": cfg, "codepoints": [tuple(c) for c in cps], "pngs": images}
+        check_bitmap_font(ctx, res, case, out)
+
+
 def suite_fonts(ctx, res, n):
     for i in range(n):
         fmt = ["cbdt", "cbdt", "sbix"][i % 3]
@@ -389,6 +469,7 @@ def run(ctx, res):
     suite_unit(ctx, res, ctx.budget(1500, 30000))
     suite_runs(ctx, res, ctx.budget(300, 5000))
     suite_fonts(ctx, res, ctx.budget(45, 900))
+    suite_cli(ctx, res, ctx.budget(6, 24))
 
 
 def search(ctx, res, broken):
